@@ -69,6 +69,15 @@ func (g *generator) undoWake(r *run) []string {
 				fmt.Sprintf("1 cancel %d", g.nextC), "9 touch"}
 		}
 	}
+	if g.rng.Chance(1, 5) && len(g.queues) > 0 {
+		// a second request for the same cacheable action arrives while the size class of the first is being selected
+		q := g.queues[g.rng.Intn(len(g.queues))]
+		d := 2*g.rng.Intn(2) + q.plat
+		inv := invPool[g.rng.Intn(len(invPool))]
+		g.nextC += 2
+		return []string{fmt.Sprintf("0 exec %d %d %s %s 0 sel=0 bg=- retry=0 hold=3", g.nextC-1, d, q.comps, inv),
+			fmt.Sprintf("0 exec %d %d %s %s 0 sel=0 bg=- retry=0", g.nextC, d, q.comps, invPool[g.rng.Intn(len(invPool))])}
+	}
 	switch g.rng.Intn(3) {
 	case 0: // drained and undrained at once
 		pat := k[2]
